@@ -369,7 +369,7 @@ class Interp:
                             obj = self.new_object(d["n"], esz_)
                             env[("obj", d["d"])] = obj
                             if init is not None:
-                                self._fill(obj.base, 0, tarr, init.strip(), fn)
+                                self._fill(obj.base, 0, tarr, init.strip(), fn, env if d.get("dk") != "slocal" else None, depth)
                             env[d["d"]] = U
                 if d["d"] in self.forced and fn is self.fn:
                     env[d["d"]] = self.forced[d["d"]]
@@ -631,7 +631,7 @@ class Interp:
         esz = self.sizeof((m.group(1) + m.group(3)).strip()) if m else size
         return Ptr(base, 0, esz or 1)
 
-    def _fill(self, base, off, t, node, fn):
+    def _fill(self, base, off, t, node, fn, env=None, depth=0):
         t = clean_type(t or "").strip()
         n = node.strip() if node is not None and hasattr(node, "strip") else node
         m = re.match(r"^(.*?)\[(\d+)\](.*)$", t)
@@ -642,14 +642,14 @@ class Interp:
                 return
             kids = [x for x in n.c] if n is not None and n.k == "InitListExpr" else []
             for i in range(int(m.group(2))):
-                self._fill(base, off + i * esz, et, kids[i] if i < len(kids) else None, fn)
+                self._fill(base, off + i * esz, et, kids[i] if i < len(kids) else None, fn, env, depth)
             return
         rec = self.record_of(t)
         if rec is not None:
             fields = [f for f in rec["fields"] if f.get("off") is not None and f["n"]]
             kids = [x for x in n.c] if n is not None and n.k == "InitListExpr" else []
             for i, f in enumerate(fields):
-                self._fill(base, off + f["off"] // 8, f["t"], kids[i] if i < len(kids) else None, fn)
+                self._fill(base, off + f["off"] // 8, f["t"], kids[i] if i < len(kids) else None, fn, env, depth)
             return
         if n is None or n.k == "ImplicitValueInitExpr":
             self.heap[(base, off)] = 0
@@ -664,6 +664,15 @@ class Interp:
                 x is not None and x.k == "DeclRefExpr" and x.name in self.P.by_name):
             self.heap[(base, off)] = FuncRef(x.name)
             return
+        if env is not None:
+            # an automatic array initialised from run-time values (`{ 1, &obj->member, &obj->member_len }`)
+            try:
+                self.heap[(base, off)] = self.rv(self.ev(n, env, fn, depth), env)
+                return
+            except (Stop, Budget):
+                raise
+            except Exception:
+                pass
         self.heap[(base, off)] = U
 
     # ---- struct objects and struct values
